@@ -2,4 +2,5 @@ package main
 
 // genAll is extended as more tables are needed.
 func genAll() {
+	genReplace() // C09: tools/gen/replace.go
 }
